@@ -17,6 +17,7 @@ import ClarabelProofs.Lemmas.PresolveHandReduce
 import ClarabelProofs.Lemmas.PresolveSolveTransparent
 import ClarabelProofs.Lemmas.PresolveTransparent
 import ClarabelProofs.Lemmas.PresolveTransparentFull
+import ClarabelProofs.Props.C09NS
 import ClarabelProofs.Props.C16
 import ClarabelProofs.Lemmas.ScalarInst
 import Mathlib.Algebra.Order.Field.Basic
